@@ -54,7 +54,9 @@ extern "C" int __wrap_pthread_mutex_unlock(pthread_mutex_t * m)
   return __real_pthread_mutex_unlock(m);
 }
 #else
-static inline void rec(int, int, long long = 0, long long = 0, long long = 0, long long = 0, long long = 0) {}
+// without recording the observed values must still be USED, or the optimiser removes the reads ThreadSanitizer is meant to see
+static thread_local volatile long long tl_sink = 0;
+static inline void rec(int, int, long long a = 0, long long b = 0, long long c = 0, long long d = 0, long long e = 0) {tl_sink = tl_sink + a + b + c + d + e;}
 #endif
 static inline void inv(int m, long long arg = 0) {rec(0, m, arg);}
 static inline void res(int m, long long a = 0, long long b = 0, long long c = 0, long long d = 0, long long e = 0) {rec(3, m, a, b, c, d, e);}
